@@ -698,7 +698,7 @@ def case(ctx, rng, idx, state):
 if __name__ == "__main__":
     harness.main(
         PROP, "exploration", case, setup_fn=setup,
-        tiers=dict(quick=dict(cases=256, shards=8, time=100), thorough=dict(cases=4800, shards=16, time=540)),
+        tiers=dict(quick=dict(cases=256, shards=8, time=900), thorough=dict(cases=4800, shards=16, time=3000)),
         rule="all 32 crystallographic point groups (cycled by case index, so each is built 7 times in the quick tier) x "
              "{ordinary, gray, black-white} x alternative/redundant/shuffled generator lists x {standard frame via strings, "
              "random SO(3) frame via Rotation/Mirror, via explicit matrices} x compatible Bravais lattices (own family or "
